@@ -43,16 +43,9 @@ def build_candles(spec):
     return out
 
 
-def run_session(spec, subs=None, candles=None, keep_events=True, snapshots=True, pre_hook=None):
-    """spec: {
-        config: {starting_balance, fee, type, futures_leverage, futures_leverage_mode, warm_up_candles},
-        routes: [{symbol, timeframe, script}], data_routes: [{symbol, timeframe}],
-        candles: {symbol: genspec}, warmup: int (number of leading 1m candles used as warm-up),
-        fast: bool, hyperparameters: dict|None, exchange: name }
-    Returns {'events', 'result', 'error', 'candles' (as passed to jesse, trading part), 'warmup'}"""
-    from jesse.research import backtest
+def build_args(spec, allc):
+    """the argument objects of one research.backtest call (kept by callers that want to pass the same objects again)"""
     exchange = spec.get('exchange', EXCHANGE)
-    allc = candles if candles is not None else build_candles(spec)
     w = int(spec.get('warmup', 0))
     cfg = dict(spec['config'])
     cfg.setdefault('exchange', exchange)
@@ -67,6 +60,23 @@ def run_session(spec, subs=None, candles=None, keep_events=True, snapshots=True,
         trading[key] = {'exchange': exchange, 'symbol': sym, 'candles': arr[w:]}
         if w:
             warm[key] = {'exchange': exchange, 'symbol': sym, 'candles': arr[:w]}
+    return {'config': cfg, 'routes': routes, 'data_routes': data_routes, 'candles': trading, 'warmup_candles': warm,
+            'hyperparameters': spec.get('hyperparameters')}
+
+
+def run_session(spec, subs=None, candles=None, keep_events=True, snapshots=True, pre_hook=None, args=None):
+    """spec: {
+        config: {starting_balance, fee, type, futures_leverage, futures_leverage_mode, warm_up_candles},
+        routes: [{symbol, timeframe, script}], data_routes: [{symbol, timeframe}],
+        candles: {symbol: genspec}, warmup: int (number of leading 1m candles used as warm-up),
+        fast: bool, hyperparameters: dict|None, exchange: name }
+    args: argument objects from build_args (same objects are passed on; default: built here)
+    Returns {'events', 'result', 'error', 'candles' (as passed to jesse, trading part), 'warmup'}"""
+    from jesse.research import backtest
+    allc = candles if candles is not None else build_candles(spec)
+    w = int(spec.get('warmup', 0))
+    if args is None:
+        args = build_args(spec, allc)
     if not spec.get('no_isolate'):
         isolate()
     out = {'error': None, 'result': None}
@@ -76,8 +86,8 @@ def run_session(spec, subs=None, candles=None, keep_events=True, snapshots=True,
             pre_hook()
         if not spec.get('no_isolate'):
             _drivers_after_routes()
-        out['result'] = backtest(cfg, routes, data_routes, trading, warm,
-                                 hyperparameters=spec.get('hyperparameters'), fast_mode=bool(spec.get('fast')))
+        out['result'] = backtest(args['config'], args['routes'], args['data_routes'], args['candles'], args['warmup_candles'],
+                                 hyperparameters=args['hyperparameters'], fast_mode=bool(spec.get('fast')))
     except Exception as ex:
         out['error'] = {'type': type(ex).__name__, 'msg': str(ex)[:300], 'tb': traceback.format_exc()[-1500:]}
     finally:
